@@ -15,6 +15,7 @@
 -/
 import Proofs.C10_Setters
 import Proofs.C10_Elastic
+import Proofs.C10_Objects
 import Atomman.C09
 import Mathlib.Algebra.Order.Field.Rat
 
@@ -544,6 +545,81 @@ example : cijSet (1 / 1000000000 : ℚ) (1 / 1000000000) (1 / 100000)
      0, 0, 0, 0, 0, 1 / 2] := by decide +kernel
 
 end field
+
+/-! ## objects with state: an existing `Box` / `System` object behaves like a freshly constructed one -/
+
+section objects
+variable [Field K] [LT K] [DecidableLT K]
+
+/-- **box_object_conversions**: in every state a `Box` object can reach (construction, setter calls, conversions
+    that make it keep its reciprocal vectors, `model(model=…)` reads, in any order) its
+    `position_cartesian_to_relative` and `reciprocal_vects` are those of its *current* cell — what a `Box` freshly
+    built from the same vectors and origin returns — and asking does not change the cell. -/
+theorem box_object_conversions (eps : K) (b : BoxObj K) (h : BoxReach eps b) (p : V3 K) :
+    (b.cartToRel p).1 = b.box.cartToRel p ∧ b.recipVects.1 = b.box.recip ∧ (b.cartToRel p).2.box = b.box ∧
+      BoxReach eps (b.cartToRel p).2 :=
+  ⟨BoxObj.cartToRel_fst b (h.coherent eps b) p, BoxObj.recipVects_fst b (h.coherent eps b),
+   BoxObj.recipVects_box b, BoxReach.convert b p h⟩
+
+/-- **box_object_read_model**: `box.model(model=B.model(length_unit=u))` on an existing object `b` — whatever `b`
+    held and kept before — gives an object with the cell and origin of `B` (through the `vects` setter) that
+    converts positions with the reciprocal vectors of `B`, through the tree / JSON and through XML text. -/
+theorem box_object_read_model (fac : String → K) (eps : K) (u : Option String) (b : BoxObj K) (hb : BoxReach eps b)
+    (B : Box K) (hf : ∀ s, u = some s → factor fac s ≠ 0) :
+    ∃ t b' b'', boxModel fac u B = some t ∧ b.readModel fac eps t = some b' ∧
+      b.readModel fac eps (xmlNorm t) = some b'' ∧ b'.box = ⟨cleanVects eps B.vects, B.origin⟩ ∧ b''.box = b'.box ∧
+      BoxReach eps b' ∧ BoxReach eps b'' ∧
+      ∀ p, (b'.cartToRel p).1 = Box.cartToRel ⟨cleanVects eps B.vects, B.origin⟩ p ∧
+           (b''.cartToRel p).1 = Box.cartToRel ⟨cleanVects eps B.vects, B.origin⟩ p := by
+  obtain ⟨t, h1, h2⟩ := box_model_roundtrip fac eps u B hf
+  obtain ⟨t', h1', h3⟩ := box_model_roundtrip_xml fac eps u B hf
+  have : t' = t := by rw [h1] at h1'; exact (Option.some.inj h1').symm
+  subst this
+  have e1 : b.readModel fac eps t' = some ⟨⟨cleanVects eps B.vects, B.origin⟩, none⟩ := by
+    simp [BoxObj.readModel, h2, BoxObj.setOrigin]
+  have e2 : b.readModel fac eps (xmlNorm t') = some ⟨⟨cleanVects eps B.vects, B.origin⟩, none⟩ := by
+    simp [BoxObj.readModel, h3, BoxObj.setOrigin]
+  have r1 := BoxReach.read fac b _ t' hb e1
+  refine ⟨t', _, _, h1, e1, e2, rfl, rfl, r1, r1, fun p => ?_⟩
+  exact ⟨(box_object_conversions eps _ r1 p).1, (box_object_conversions eps _ r1 p).1⟩
+
+/-- **sysobj_model_fresh**: `system.model(...)` of a `System` object whose `Box` object is in any reachable state
+    (reciprocal vectors kept from an earlier cell or not) is the model of a freshly built `System` with the same
+    content; writing the model changes nothing but the kept state. -/
+theorem sysobj_model_fresh (fac : String → K) (eps : K) (boxUnit : Option String)
+    (pu : List (String × Option String)) (s : SysObj K) (h : BoxReach eps s.bobj) :
+    (s.model fac boxUnit pu).1 = systemModel fac boxUnit pu s.toSystem ∧
+      (s.model fac boxUnit pu).2.toSystem = s.toSystem ∧ BoxReach eps (s.model fac boxUnit pu).2.bobj := by
+  have hc : (fun p => (s.bobj.cartToRel p).1) = s.toSystem.box.cartToRel :=
+    funext (fun p => BoxObj.cartToRel_fst s.bobj (h.coherent eps _) p)
+  unfold SysObj.model
+  split
+  · refine ⟨by simp only [hc, systemModelR_eq], ?_, BoxReach.recip _ h⟩
+    simp [SysObj.toSystem, BoxObj.recipVects_box]
+  · exact ⟨by simp only [hc, systemModelR_eq], rfl, h⟩
+
+/-- **sysobj_model_roundtrip**: hence the System round trip (`system_model_roundtrip`, box-scaled properties
+    included) holds for `System` objects with any history of their `Box` object. -/
+theorem sysobj_model_roundtrip (fac : String → K) (eps : K) (boxUnit : Option String) (s : SysObj K)
+    (h : BoxReach eps s.bobj) (hw : s.toSystem.Wf) (un : String → Option String) (hu : SysUnitsOk s.atoms un)
+    (hb : cleanVects eps s.bobj.box.vects = s.bobj.box.vects)
+    (hfb : ∀ u, boxUnit = some u → factor fac u ≠ 0)
+    (hf : ∀ p ∈ s.atoms.props, ∀ u, effUnit p.1 (un p.1) = some u → factor fac u ≠ 0)
+    (hdet : (∃ p ∈ s.atoms.props, effUnit p.1 (un p.1) = some "scaled") → M3.det s.bobj.box.vects ≠ 0) :
+    ∃ t, (s.model fac boxUnit (s.atoms.props.map (fun p => (p.1, un p.1)))).1 = some t ∧
+      systemRead fac eps t = some ⟨s.bobj.box, s.pbc, s.symbols, s.masses,
+        ⟨s.atoms.natoms, s.atoms.props.map (fun p => (p.1, ⟨p.2.shape, p.2.data.castU (effUnit p.1 (un p.1))⟩))⟩⟩ := by
+  obtain ⟨t, h1, h2⟩ := system_model_roundtrip fac eps boxUnit s.toSystem hw un hu hb hfb hf hdet
+  exact ⟨t, by rw [(sysobj_model_fresh fac eps boxUnit _ s h).1]; exact h1, h2⟩
+
+/-- a box whose reciprocal vectors were kept and whose cell was then replaced through the setter is reachable
+    (and has dropped them). -/
+example : BoxReach (1 / 1000000000 : ℚ)
+    (((BoxObj.ofBox ⟨⟨⟨4, 0, 0⟩, ⟨1, 3, 0⟩, ⟨0, 1, 5⟩⟩, ⟨1, 2, 3⟩⟩).cartToRel ⟨1, 1, 1⟩).2.setVects (1 / 1000000000)
+      ⟨⟨2, 0, 0⟩, ⟨0, 2, 0⟩, ⟨1, 0, 2⟩⟩) :=
+  BoxReach.setVects _ _ (BoxReach.convert _ _ (BoxReach.new _))
+
+end objects
 
 /-! ## ElasticConstants stored in a crystal-system representation (`normalized_as` inside the model) -/
 
